@@ -252,7 +252,7 @@ func TestC14Parse(t *testing.T) {
 		c := c14Gen(t)
 		// longer histories are cheap here
 		extra := rapid.IntRange(0, 10).Draw(t, "moresteps")
-		kinds := []int{0, 1, 2, 2, 3, 4, 4, 5, 6, 6, 7, 7, 8, 8, 9, 10, 11, 12, 13, 14, 23}
+		kinds := []int{0, 1, 2, 2, 3, 4, 4, 5, 6, 6, 7, 7, 8, 8, 9, 10, 11, 12, 13, 14, 15, 23}
 		for i := 0; i < extra; i++ {
 			c.Steps = append(c.Steps, c14Step{Kind: rapid.SampledFrom(kinds).Draw(t, "kind"), A: rapid.IntRange(0, 1000).Draw(t, "a"), B: rapid.IntRange(0, 1000).Draw(t, "b"), C: rapid.IntRange(0, 16383).Draw(t, "c")})
 		}
